@@ -443,7 +443,7 @@ def datafile_mutations(R, F, node):
 
 
 @rule('C01.R5', 'only vote/finish/abort/pack/open write, truncate, rename or '
-      'remove the data file', props=['C05'], min_instances=25)
+      'remove the data file', props=['C05', 'C06'], min_instances=25)
 def r5(R):
     cls = R.prog.cls(FS)
     names = set()
